@@ -138,7 +138,7 @@ CHECKS["C06"] = ("model_checking",
 CHECKS["C27"] = ("model_checking",
     "TLA+ Trace_Notify observer over ULTable (the PS3.8 transition table of C04): the notification history recorded from every association of the Scenario.tla user scripts run on two real AEs is validated by TLC "
     "(C2S): each EVT_FSM_TRANSITION is a table cell and chains with the previous one, open first/once, close once/last, established once and before released/aborted, PDU notifications paired with byte-level notifications and with what the peer's transport read",
-    "About 1500 (quick) / 6000 (thorough) association histories from lifecycle scenarios with seeded delays at every notification point, incl. rejections, aborts inside handlers, release collisions and second-thread actions.",
+    "About 1500 (quick) / 9000 (thorough) association histories from lifecycle scenarios; thorough also validates the ~680 histories recorded while the repository's own tests (test_assoc, test_ae, test_service_verification, test_service_storage, test_events) run unchanged under the recorder; with seeded delays at every notification point, incl. rejections, aborts inside handlers, release collisions and second-thread actions.",
     _PAIR_NOTE, "§6 C27", "pair")
 
 CHECKS["C07"] = ("model_checking",
